@@ -30,6 +30,8 @@ struct Cx<'a> {
     max_len: Mutex<(usize, String)>,
     decoded_mutants: AtomicUsize,
     samples: Mutex<Samples>,
+    /// substitution values tried at every byte position of a neighbourhood message
+    values: Vec<u8>,
 }
 
 trait Wire: Sized {
@@ -134,7 +136,7 @@ fn exercise<T: Wire>(cx: &Cx, name: &str, m: &T, emitted_by_correct_node: bool, 
         }
     };
     for pos in 0..bytes.len() {
-        for v in [0x00u8, 0x01, 0x7f, 0x80, 0xff] {
+        for v in cx.values.iter().copied() {
             if bytes[pos] != v {
                 let mut b = bytes.clone();
                 b[pos] = v;
@@ -190,6 +192,7 @@ pub fn run(tier: Tier) -> i32 {
         max_len: Mutex::new((0, String::new())),
         decoded_mutants: AtomicUsize::new(0),
         samples: Mutex::new(Samples::new(6)),
+        values: if tier == Tier::Thorough { (0..=255u8).collect() } else { vec![0x00, 0x01, 0x7f, 0x80, 0xff] },
     };
     let e = make_epoch(&[1, 1, 1, 1]);
     let sk = &e.sks[0];
@@ -259,8 +262,8 @@ pub fn run(tier: Tier) -> i32 {
                         report.violation(format!("C19:roundtrip-not-equal:cert/{k}"), format!("{name}: decoded certificate != original"), json!({"n": n}));
                     }
                 }
-                let neighbourhood = (*n == 3 || *n == 65 || *n == 2048) && sname == "word-boundaries";
-                exercise(&cx, &name, &ConsensusMessage::Cert(c), true, neighbourhood && (k == "notar" || k == "skip"));
+                let neighbourhood = (*n == 3 || *n == 65 || *n == 2048 || (tier == Tier::Thorough && (*n == 1 || *n == 63 || *n == 64 || *n == 128 || *n == 129))) && sname == "word-boundaries";
+                exercise(&cx, &name, &ConsensusMessage::Cert(c), true, neighbourhood && (k == "notar" || k == "skip" || tier == Tier::Thorough));
             }
         }
     });
